@@ -34,8 +34,8 @@ FLAVOURS = {
     'asan': (['-O1', '-g', '-fno-omit-frame-pointer', '-fsanitize=address,undefined', '-fno-sanitize-recover=all', '-DDEBUG=true'],
              ['-O1', '-g', '-fno-omit-frame-pointer', '-fsanitize=address,undefined', '-fno-sanitize-recover=all', '-DSIM_FLAVOUR_ASAN'],
              ['-fsanitize=address,undefined'], False),
-    'plainO2': (['-O2', '-g', '-DNDEBUG', '-fPIC'], ['-O2', '-g', '-DSIM_FLAVOUR_PLAIN'], [], True),
-    'plainO0': (['-O0', '-g', '-DNDEBUG', '-fPIC'], ['-O2', '-g', '-DSIM_FLAVOUR_PLAIN'], [], True),
+    'plainO2': (['-O2', '-g', '-gdwarf-4', '-DNDEBUG', '-fPIC'], ['-O2', '-g', '-gdwarf-4', '-DSIM_FLAVOUR_PLAIN'], [], True),    # dwarf-4: valgrind 3.19 cannot read clang's DWARF 5
+    'plainO0': (['-O0', '-g', '-gdwarf-4', '-DNDEBUG', '-fPIC'], ['-O2', '-g', '-gdwarf-4', '-DSIM_FLAVOUR_PLAIN'], [], True),
     'tsan': (['-O1', '-g', '-fno-omit-frame-pointer', '-fsanitize=thread', '-DNDEBUG'], ['-O2', '-g', '-DSIM_FLAVOUR_TSAN'], ['-fsanitize=thread'], False),
 }
 
@@ -222,17 +222,27 @@ NOT_APPLICABLE = ['C01', 'C02', 'C07', 'C10', 'C15', 'C16', 'C20']
 class Worker:
     pass
 
-def run_chunk(exe, prop, seed, a, b, tier, tmpdir, tag, want_digests=False):
+VALGRIND = ['valgrind', '-q', '--error-exitcode=88', '--exit-on-first-error=yes', '--track-origins=yes', '--num-callers=14', '--fullpath-after=']
+
+def run_chunk(exe, prop, seed, a, b, tier, tmpdir, tag, want_digests=False, wrapper=None):
     hp = os.path.join(tmpdir, 'h-%s-%d.bin' % (tag, a))
     cmd = [exe, 'run', prop, str(seed), str(a), str(b), tier, '--hashes', hp]
+    env = None
+    if wrapper == 'valgrind':
+        ifile = os.path.join(tmpdir, 'inflight-%s-%d' % (tag, a))
+        cmd = VALGRIND + cmd + ['--inflight-file', ifile]
+        env = dict(os.environ, SIM_NOFILL='1')
     dp = None
     if want_digests:
         dp = os.path.join(tmpdir, 'd-%s-%d.bin' % (tag, a)); cmd += ['--digests', dp]
     try:
-        r = subprocess.run(cmd, stdout=subprocess.PIPE, stderr=subprocess.PIPE, timeout=900, errors='replace', text=True)
+        r = subprocess.run(cmd, stdout=subprocess.PIPE, stderr=subprocess.PIPE, timeout=1800 if wrapper else 900, errors='replace', text=True, env=env)
         rc, out, err = r.returncode, r.stdout, r.stderr
     except subprocess.TimeoutExpired as e:
         rc, out, err = -999, (e.stdout or b'').decode(errors='replace') if isinstance(e.stdout, bytes) else (e.stdout or ''), 'TIMEOUT'
+    if wrapper == 'valgrind' and rc == 88:
+        try: err += '\nINFLIGHT idx=%d why=VALGRIND\n' % int(open(ifile).read().split()[0])
+        except Exception: pass
     return dict(a=a, b=b, rc=rc, out=out, err=err, hashes=hp, digests=dp)
 
 def parse_worker(res):
@@ -280,6 +290,14 @@ def classify_crash(prop, rc, err, why=None):
             if '/src/cbor' in loc or loc.startswith(os.path.join(REPO, 'src')):
                 libfn = fn; break
         return ('%s:tsan:%s:%s' % (prop, m.group(1).strip().replace(' ', '-'), libfn or '?'), first_lines(err, 'WARNING: ThreadSanitizer', 30), libfn is not None or in_lib)
+    if why == 'VALGRIND' or rc == 88:
+        m = re.search(r'==\d+== (Conditional jump or move depends on uninitialised value|Use of uninitialised value|Invalid read|Invalid write|Invalid free|Mismatched free|Syscall param \S+ (?:points to|contains) uninitialised|Source and destination overlap)', err)
+        vfn = None
+        for fn, loc in re.findall(r'==\d+==\s+(?:at|by) 0x[0-9A-F]+: (\S+) \((\S+?):\d+\)', err):
+            if '/src/cbor' in loc or loc.startswith(os.path.join(REPO, 'src')) or '/src/allocators.c' in loc:
+                vfn = fn; break
+        kind = (m.group(1) if m else 'error').replace(' ', '-')[:50]
+        return ('%s:valgrind:%s:%s' % (prop, kind, vfn or '?'), first_lines(err, '==', 24), vfn is not None)
     m = re.search(r'PROTECTION-FAULT (.*)', err)
     if m:
         return ('%s:protection-fault:%s' % (prop, m.group(1).split(' detail=')[0][:110]), m.group(1)[:400], True)
@@ -300,12 +318,14 @@ def gen_plan(exe, prop, seed, idx, tier):
     if r.returncode != 0: raise SystemExit(harness_fault('plan generation failed: ' + r.stderr[-500:]))
     return json.loads(r.stdout)
 
-def replay_plan(exe, plan, tmpdir, timeout=300):
+def replay_plan(exe, plan, tmpdir, timeout=300, wrapper=None):
     """Run one plan in a fresh process. Returns dict(cls, detail, digest, in_lib, ok)."""
     p = os.path.join(tmpdir, 'replay-%d-%d.json' % (os.getpid(), replay_plan.n)); replay_plan.n += 1
     with open(p, 'w') as f: json.dump(plan, f)
     try:
-        r = subprocess.run([exe, 'replay', p], stdout=subprocess.PIPE, stderr=subprocess.PIPE, timeout=timeout, errors='replace', text=True)
+        cmd = [exe, 'replay', p]; env = None
+        if wrapper == 'valgrind': cmd = VALGRIND + cmd; env = dict(os.environ, SIM_NOFILL='1'); timeout = max(timeout, 600)
+        r = subprocess.run(cmd, stdout=subprocess.PIPE, stderr=subprocess.PIPE, timeout=timeout, errors='replace', text=True, env=env)
         rc, out, err = r.returncode, r.stdout, r.stderr
     except subprocess.TimeoutExpired:
         rc, out, err = -999, '', 'TIMEOUT'
@@ -322,6 +342,7 @@ def replay_plan(exe, plan, tmpdir, timeout=300):
     why = None
     m = re.search(r'INFLIGHT idx=\d+ why=(\S+)', out + err)
     if m: why = m.group(1)
+    if wrapper == 'valgrind' and rc == 88: why = 'VALGRIND'
     cls, detail, in_lib = classify_crash(plan.get('prop', '?'), rc, err, why)
     return dict(cls=cls, detail=detail, digest=None, in_lib=in_lib, ok=False, raw=err[-3000:], rc=rc)
 replay_plan.n = 0
@@ -375,13 +396,13 @@ def cbor_item_end(bs, off, depth=0):
         if p is None: return None
     return p
 
-def shrink(exe, plan, cls, tmpdir, budget_s=60, budget_n=400):
+def shrink(exe, plan, cls, tmpdir, budget_s=60, budget_n=400, wrapper=None):
     """Greedy/ddmin reduction keeping the violation class constant. Each candidate runs in a fresh process."""
     t0 = time.time(); tried = [0]
     def still(cand):
         if tried[0] >= budget_n or time.time() - t0 > budget_s: return False
         tried[0] += 1
-        r = replay_plan(exe, cand, tmpdir, timeout=60)
+        r = replay_plan(exe, cand, tmpdir, timeout=60, wrapper=wrapper)
         return r['cls'] == cls
     cur = json.loads(json.dumps(plan))
     progress = True
@@ -480,6 +501,8 @@ def run_property(prop, tier, seed):
     t_start = time.time()
     tmpdir = os.path.join(BUILD, 'tmp-%s-%d' % (prop, os.getpid())); os.makedirs(tmpdir, exist_ok=True)
     phases = list(cfg['phases'])
+    if tier == 'thorough' and prop in ('C03', 'C04', 'C06', 'C11'):
+        phases.append(('plainO2', None, 0, 640, 'valgrind'))   # uninitialised reads, which ASan cannot see
     if prop == 'C19' and tier == 'thorough':
         phases = [('plainO2', L, 0, 6000) for L in THOROUGH_L]
     scale = float(os.environ.get('VERIF_SCALE', '1'))
@@ -488,24 +511,26 @@ def run_property(prop, tier, seed):
     crashes = 0
     phase_info = []
     try:
-        for (flavour, L, nq, nt) in phases:
+        for ph in phases:
+            (flavour, L, nq, nt), wrapper = ph[:4], (ph[4] if len(ph) > 4 else None)
             exe = build(flavour, None if L in (None, 'default') else L)
             n = int((nq if tier == 'quick' else nt) * scale)
             if n <= 0: continue
             info = json.loads(sh([exe, 'info']).stdout)
             t_ph = time.time()
             chunk = max(20, min(4000, n // (JOBS * 6)))
+            if wrapper: chunk = max(5, n // (JOBS * 2))
             pending = [(a, min(a + chunk, n)) for a in range(0, n, chunk)]
             ph_runs = 0
             with ThreadPoolExecutor(max_workers=JOBS) as ex:
-                futs = {ex.submit(run_chunk, exe, prop, seed, a, b, tier, tmpdir, flavour + str(L)): (a, b) for a, b in pending}
+                futs = {ex.submit(run_chunk, exe, prop, seed, a, b, tier, tmpdir, flavour + str(L), False, wrapper): (a, b) for a, b in pending}
                 while futs:
                     for fut in as_completed(list(futs)):
                         a, b = futs.pop(fut)
                         res = fut.result()
                         viols, done, inflight = parse_worker(res)
                         for v in viols:
-                            cands.append(dict(cls=v['cls'], detail=v['detail'], plan=v['plan'], exe=exe, kind='oracle'))
+                            cands.append(dict(cls=v['cls'], detail=v['detail'], plan=v['plan'], exe=exe, kind='oracle', wrapper=wrapper))
                         if done:
                             total['runs'] += done['runs']; ph_runs += done['runs']; total['nontrivial'] += done['nontrivial']; total['foreign'] += done['foreign']
                             total['sim_time'] += done.get('sim_time', 0); total['digest'] ^= done.get('digest', 0)
@@ -528,12 +553,12 @@ def run_property(prop, tier, seed):
                             if cls is None or not in_lib:
                                 raise SystemExit(harness_fault('worker died outside library code at run %d: %s' % (idx, detail)))
                             plan = gen_plan(exe, prop, seed, idx, tier)
-                            cands.append(dict(cls=cls, detail=detail, plan=plan, exe=exe, kind='crash', ctx=dict(a=a, idx=idx, tier=tier, seed=seed)))
+                            cands.append(dict(cls=cls, detail=detail, plan=plan, exe=exe, kind='crash', wrapper=wrapper, ctx=dict(a=a, idx=idx, tier=tier, seed=seed)))
                             total['runs'] += idx - a + 1; ph_runs += idx - a + 1
                             if idx + 1 < b and crashes < 12 and len(cands) < 40:
-                                futs[ex.submit(run_chunk, exe, prop, seed, idx + 1, b, tier, tmpdir, flavour + str(L))] = (idx + 1, b)
+                                futs[ex.submit(run_chunk, exe, prop, seed, idx + 1, b, tier, tmpdir, flavour + str(L), False, wrapper)] = (idx + 1, b)
                         break
-            phase_info.append(dict(flavour=flavour, L=info.get('max_stack'), growth=info.get('growth'), runs=ph_runs, wall_s=round(time.time() - t_ph, 2)))
+            phase_info.append(dict(wrapper=wrapper, flavour=flavour, L=info.get('max_stack'), growth=info.get('growth'), runs=ph_runs, wall_s=round(time.time() - t_ph, 2)))
         # ---------------------------------------------------------------- violations: gate, shrink, replay, known-findings
         reported, known_lines, fault, unconfirmed = [], [], None, []
         groups = {}
@@ -543,7 +568,7 @@ def run_property(prop, tier, seed):
             confirmed = None
             for c in group[:3]:
                 exe = c['exe']
-                r1 = replay_plan(exe, c['plan'], tmpdir); r2 = replay_plan(exe, c['plan'], tmpdir)
+                r1 = replay_plan(exe, c['plan'], tmpdir, wrapper=c.get('wrapper')); r2 = replay_plan(exe, c['plan'], tmpdir, wrapper=c.get('wrapper'))
                 if r1['cls'] == cls and r2['cls'] == cls and r1.get('digest') == r2.get('digest'):
                     confirmed = ('plan', c, r1); break
             if not confirmed:
@@ -567,10 +592,10 @@ def run_property(prop, tier, seed):
                 fault = 'report %s has no frame inside the library' % cls; break
             flavour = [f for f in FLAVOURS if ('sim-%s-' % f) in exe][0]
             if kind == 'plan':
-                small, tried = shrink(exe, c['plan'], cls, tmpdir, budget_s=40 if tier == 'quick' else 120)
-                r3 = replay_plan(exe, small, tmpdir)
+                small, tried = shrink(exe, c['plan'], cls, tmpdir, budget_s=40 if tier == 'quick' else 120, wrapper=c.get('wrapper'))
+                r3 = replay_plan(exe, small, tmpdir, wrapper=c.get('wrapper'))
                 if r3['cls'] != cls: small, r3 = c['plan'], r1
-                doc = dict(property=prop, violation=dict(cls=cls, detail=r3['detail']), seed=seed, flavour=flavour, L=c['plan'].get('L'), shrink_replays=tried, plan=small)
+                doc = dict(property=prop, violation=dict(cls=cls, detail=r3['detail']), seed=seed, flavour=flavour, wrapper=c.get('wrapper'), L=c['plan'].get('L'), shrink_replays=tried, plan=small)
             else:
                 r3 = r1
                 doc = dict(property=prop, violation=dict(cls=cls, detail=r3['detail']), seed=seed, flavour=flavour, L=c['plan'].get('L'), shrink_replays=0, plan=c['plan'],
@@ -643,7 +668,7 @@ def cmd_replay(path):
                 k, det, _in = classify_crash(prop, res['rc'], res['err'], infl[1] if infl else None)
                 r = dict(ok=False, cls=k, detail=det, digest=None)
         else:
-            r = replay_plan(exe, plan, tmpdir)
+            r = replay_plan(exe, plan, tmpdir, wrapper=doc.get('wrapper'))
     finally:
         shutil.rmtree(tmpdir, ignore_errors=True)
     if r['ok']:
@@ -670,7 +695,7 @@ def cmd_determinism(args):
     tmpdir = os.path.join(BUILD, 'tmp-det-%d' % os.getpid()); os.makedirs(tmpdir, exist_ok=True)
     try:
         for prop, cfg in PROPS.items():
-            for (flavour, L, nq, nt) in cfg['phases']:
+            for (flavour, L, nq, nt) in [ph[:4] for ph in cfg['phases']]:
                 exe = build(flavour, None if L in (None, 'default') else L)
                 m = min(n, nq)
                 ref = None
